@@ -348,7 +348,9 @@ def build_cxx_driver(name, cxx_sources, c_sources, vname, incs=(), extra=(), lib
     tag = re.sub(r"[^A-Za-z0-9]", "_", vname)
     objs = []
     cflags = v.harness_flags()
-    cxxflags = [f for f in cflags if not f.startswith("-std=")] + ["-std=gnu++11", "-Wno-unused-variable"]
+    # the C++ sources under test (the Arduino classes) are compiled at the variant's own optimisation level (-O0/-Os matter: without
+    # inlining, same-named inline helpers of different files collide at link time); the harness C files keep their usual level
+    cxxflags = [f for f in cflags if not f.startswith("-std=") and not re.fullmatch(r"-O[0-3sg]", f)] + list(v.opt) + ["-std=gnu++11", "-Wno-unused-variable"]
     inc = ["-I" + os.path.join(REPO, "include"), "-I" + HARNESS] + ["-I" + i for i in incs]
 
     def comp(job):
